@@ -27,7 +27,21 @@ class SchedFamily(Family):
         d['variants'] = ['as built'] + (['after apply_modifiers'] if self.unroll else [])
         return d
 
+    attribute_joined_end_blocks = False
+
     def run(self, prog):
+        res = self.judge_program(prog)
+        if self.attribute_joined_end_blocks and res.fails:
+            # Attribution to the listed finding "a block placed JOINED_END" (DESIGN 6.4) by a counterfactual on the failing
+            # program itself: the same program with the blocks' own relations turned into JOINED_START must be judged clean.
+            variant = tuple((e[:4] + (('JS', e[4][1]),)) if e[0] == 'sub' and len(e) > 4 and e[4] is not None and e[4][0] == 'JE' else e for e in prog)
+            world.clear_memo()
+            if variant != tuple(prog) and not self.judge_program(variant).fails:
+                res.fails = [(code + '@joined-end-block', detail) for code, detail in res.fails]
+            world.clear_memo()
+        return res
+
+    def judge_program(self, prog):
         res = Res()
         cfg = world.cfg_by_name(self.cfgname)
         with world.override(cfg):
@@ -187,6 +201,12 @@ def families_for(want, tier):
             # blocks with a FOLLOWED_BY / JOINED_START relation of their own
             fams.append(SchedFamily(NestedSpace1(2, reps=(1, 2), bodies=N1_BODIES, block_rels=('FB', 'JS')), 'G', want, unroll=False))
             fams.append(SchedFamily(NestedSpace1(3, reps=(1,), bodies=N1_BODIES[1:4], atoms=[('X', 0), ('R', 1)], block_rels=('FB', 'JS')), 'H', want, unroll=False))
+            # blocks placed JOINED_END an earlier entry (known finding F23: their contents leave the block's span once listed)
+            je = NestedSpace1(2, reps=(1, 2), bodies=N1_BODIES, block_rels=('JE',))
+            je.name = 'N1J'
+            fam = SchedFamily(je, 'G', want, unroll=False)
+            fam.attribute_joined_end_blocks = True
+            fams.append(fam)
         if 'C01' in want:
             # deviation-bounded: up to 6 entries, at most 2 explicit relations (deep trees, leaves at different depths)
             fams.append(SchedFamily(SparseSpace(6, 2, min_len=5, atoms=[('X', 0), ('X', 1), ('P', 0)], last_atoms=[('R', 0), ('P', 0), ('X', 0)]), 'G', want, unroll=False))
